@@ -140,3 +140,284 @@ def lin_network(draw):
     clusters = [clusters[i] for i in order]
     return {"axes": axes, "angles": angles, "deg": deg, "params": {"sigma-apr": 10, "tol-abs": 1e9},
             "description": "lin", "points": P, "clusters": clusters}
+
+
+# --------------------------------------------------------------------------
+# determined networks built by recipes (DESIGN 3.2)
+
+def _noise(draw, sd, level):
+    """bounded error in units of sd: level 0 -> exactly 0"""
+    if level == 0:
+        return 0.0
+    return draw(st.integers(-25, 25)) / 10.0 * sd * level
+
+
+class _Builder:
+    def __init__(self, draw, noise, dims, sds=None):
+        self.draw = draw
+        self.noise = noise
+        self.dims = dims            # "2d" | "3d" | "1d"
+        self.stations = {}          # station id -> list of obs (one <obs> cluster per station)
+        self.order = []             # station ids in creation order
+        self.hd = []                # height differences
+        self.coords = []
+        self.vectors = []
+        self.recipes = []
+        self.sd = sds or {"direction": 10.0, "angle": 14.0, "azimuth": 15.0, "z-angle": 12.0,
+                          "distance": 5.0, "s-distance": 6.0, "dh": 2.0, "coord": 8.0}
+
+    def st_obs(self, sid):
+        if sid not in self.stations:
+            self.stations[sid] = []
+            self.order.append(sid)
+        return self.stations[sid]
+
+    def add(self, sid, t, **kw):
+        sd = self.sd[t]
+        ob = {"t": t, "sd": sd, "e": _noise(self.draw, sd, self.noise)}
+        ob.update(kw)
+        lst = self.st_obs(sid)
+        if t == "direction":
+            for o in lst:
+                if o["t"] == "direction" and o["to"] == ob["to"]:
+                    return o
+        lst.append(ob)
+        return ob
+
+    def has_dir(self, sid, to):
+        return any(o["t"] == "direction" and o["to"] == to for o in self.stations.get(sid, []))
+
+    def add_dh(self, a, b):
+        sd = self.sd["dh"]
+        self.hd.append({"from": a, "to": b, "sd": sd, "dist": None, "e": _noise(self.draw, sd, self.noise)})
+
+    def add_coords(self, pid, dims):
+        n = {"xy": 2, "z": 1, "xyz": 3}[dims]
+        self.coords.append({"id": pid, "dims": dims, "e": [_noise(self.draw, self.sd["coord"], self.noise) for _ in range(n)]})
+
+    def add_vector(self, a, b):
+        self.vectors.append({"from": a, "to": b, "e": [_noise(self.draw, self.sd["coord"], self.noise) for _ in range(3)]})
+
+
+@st.composite
+def determined_network(draw, noise=1, dims=None, free=False, allow_cov=True, all_axes=True,
+                       n_max=8, omit=True, heights_dh=True):
+    """A geometrically determined network built by recipes.
+    noise: 0 exact observations, 1 errors of about one sigma.
+    free: no fixed coordinates - the datum is carried by constrained points (C08)."""
+    axes, angles = draw(frame(all_axes))
+    dims = dims or draw(st.sampled_from(["2d", "2d", "3d", "1d"]))
+    deg = draw(st.booleans())
+    nfix = {"2d": 2, "3d": 2, "1d": 1}[dims] + draw(st.integers(0, 1))
+    nnew = draw(st.integers(1, max(1, n_max - nfix)))
+    n = nfix + nnew
+    offset = draw(st.sampled_from([(0.0, 0.0), (0.0, 0.0), (7.0e5, 1.0e6), (-4.5e5, 5.2e6)]))
+    pts = draw(points(n, offset=offset))
+    B = _Builder(draw, noise, dims)
+    P = []
+    has_xy = dims in ("2d", "3d")
+    has_z = dims in ("3d", "1d")
+    for i, (E, N, H) in enumerate(pts):
+        known = i < nfix
+        p = {"id": IDS[i], "E": E, "N": N, "H": H, "xy": None, "z": None,
+             "give_xy": False, "give_z": False}
+        if has_xy:
+            p["xy"] = "fix" if known else "adj"
+            p["give_xy"] = True
+        if has_z:
+            p["z"] = "fix" if known else "adj"
+            p["give_z"] = True
+        P.append(p)
+    ids = [p["id"] for p in P]
+    known = ids[:nfix]
+    hz_recipes = ["polar", "intersection", "trilateration", "azdist", "coords", "vector", "traverse"]
+    z_recipes = ["dh", "trig", "vector", "coords"]
+    for p in P[nfix:]:
+        pid = p["id"]
+        rec_xy = rec_z = None
+        if has_xy:
+            rec_xy = draw(st.sampled_from(hz_recipes))
+            if rec_xy == "intersection" and len(known) < 2:
+                rec_xy = "polar"
+            if rec_xy == "trilateration" and len(known) < 3:
+                rec_xy = "polar"
+            if rec_xy == "vector" and not has_z:
+                rec_xy = "polar"
+            if rec_xy in ("polar", "traverse"):
+                s = known[-1] if rec_xy == "traverse" else draw(st.sampled_from(known))
+                refs = [k for k in known if k != s]
+                ref = draw(st.sampled_from(refs))
+                B.add(s, "direction", to=ref)
+                B.add(s, "direction", to=pid)
+                B.add(s, "distance", to=pid)
+            elif rec_xy == "intersection":
+                s1, s2 = draw(st.permutations(known))[:2]
+                for s in (s1, s2):
+                    refs = [k for k in known if k != s]
+                    B.add(s, "direction", to=draw(st.sampled_from(refs)))
+                    B.add(s, "direction", to=pid)
+                # a third element keeps the intersection determined when P is near the line s1-s2
+                B.add(s1, "distance", to=pid)
+            elif rec_xy == "trilateration":
+                for s in draw(st.permutations(known))[:3]:
+                    if draw(st.booleans()):
+                        B.add(s, "distance", to=pid)
+                    else:
+                        B.add(pid, "distance", to=s)
+            elif rec_xy == "azdist":
+                s = draw(st.sampled_from(known))
+                B.add(s, "azimuth", to=pid)
+                B.add(s, "distance", to=pid)
+            elif rec_xy == "coords":
+                B.add_coords(pid, "xyz" if has_z and draw(st.booleans()) else "xy")
+            elif rec_xy == "vector":
+                B.add_vector(draw(st.sampled_from(known)), pid)
+        if has_z:
+            got_z = (rec_xy == "vector") or (rec_xy == "coords" and B.coords and B.coords[-1]["id"] == pid
+                                             and "z" in B.coords[-1]["dims"])
+            if not got_z:
+                rec_z = draw(st.sampled_from(z_recipes if has_xy else ["dh", "coords"]))
+                if rec_z == "vector" and not has_xy:
+                    rec_z = "dh"
+                if rec_z == "dh":
+                    s = draw(st.sampled_from(known))
+                    if draw(st.booleans()):
+                        B.add_dh(s, pid)
+                    else:
+                        B.add_dh(pid, s)
+                elif rec_z == "trig":
+                    s = draw(st.sampled_from(known))
+                    kw = {}
+                    if draw(st.booleans()):
+                        kw = {"from_dh": draw(st.integers(1000, 1900)) / 1000.0, "to_dh": draw(st.integers(0, 2500)) / 1000.0}
+                    B.add(s, "z-angle", to=pid, **kw)
+                    if draw(st.booleans()):
+                        B.add(s, "s-distance", to=pid, **kw)
+                elif rec_z == "vector":
+                    B.add_vector(draw(st.sampled_from(known)), pid)
+                elif rec_z == "coords":
+                    B.add_coords(pid, "z")
+        B.recipes.append((pid, rec_xy, rec_z))
+        p["recipe"] = [rec_xy, rec_z]
+        known.append(pid)
+    # redundant observations between determined points
+    nred = draw(st.integers(0, 2 * n))
+    for _ in range(nred):
+        a, b = draw(st.permutations(ids))[:2]
+        kinds = []
+        if has_xy:
+            kinds += ["distance", "direction", "angle", "azimuth"]
+        if has_z:
+            kinds += ["dh"]
+        if has_xy and has_z:
+            kinds += ["s-distance", "z-angle", "vector"]
+        t = draw(st.sampled_from(kinds))
+        if t == "dh":
+            B.add_dh(a, b)
+        elif t == "vector":
+            B.add_vector(a, b)
+        elif t == "angle":
+            if n < 3:
+                continue
+            c = draw(st.sampled_from([i for i in ids if i not in (a, b)]))
+            B.add(a, "angle", bs=b, fs=c)
+        elif t == "direction":
+            B.add(a, "direction", to=b)
+        else:
+            B.add(a, t, to=b)
+    # every direction set needs >= 2 distinct targets
+    for sid in list(B.order):
+        dirs = [o for o in B.stations[sid] if o["t"] == "direction"]
+        if len(dirs) == 1:
+            others = [i for i in ids if i not in (sid, dirs[0]["to"])]
+            if others:
+                B.add(sid, "direction", to=draw(st.sampled_from(others)))
+            else:
+                B.stations[sid] = [o for o in B.stations[sid] if o["t"] != "direction"]
+    clusters = []
+    for sid in B.order:
+        obs = B.stations[sid]
+        if not obs:
+            continue
+        if draw(st.booleans()):
+            obs = list(draw(st.permutations(obs)))
+        cov = None
+        if allow_cov and len(obs) >= 2 and draw(st.integers(0, 3)) == 0:
+            cov = draw(cov_for([o["sd"] for o in obs]))
+        clusters.append({"k": "obs", "from": sid, "from_dh": None, "orient": draw(st.integers(0, 3999999)) / 1e4,
+                         "obs": obs, "cov": cov})
+    if B.hd:
+        cov = None
+        if allow_cov and len(B.hd) >= 2 and draw(st.integers(0, 3)) == 0:
+            cov = draw(cov_for([o["sd"] for o in B.hd]))
+        clusters.append({"k": "hdiff", "obs": B.hd, "cov": cov})
+    if B.coords:
+        dim = sum(len(o["e"]) for o in B.coords)
+        clusters.append({"k": "coords", "obs": B.coords, "cov": draw(cov_for([B.sd["coord"]] * dim, allow_cov))})
+    if B.vectors:
+        clusters.append({"k": "vectors", "obs": B.vectors,
+                         "cov": draw(cov_for([B.sd["coord"]] * (3 * len(B.vectors)), allow_cov))})
+    clusters = [clusters[i] for i in draw(st.permutations(list(range(len(clusters)))))]
+    params = {"sigma-apr": draw(st.sampled_from([1, 2.5, 10, 10, 25])),
+              "conf-pr": draw(st.sampled_from([0.95, 0.9, 0.99, 0.5, 0.999])),
+              "sigma-act": draw(st.sampled_from(["aposteriori", "apriori"])),
+              "tol-abs": 1000}
+    net = {"axes": axes, "angles": angles, "deg": deg, "params": params, "description": "generated",
+           "points": P, "clusters": clusters, "dims": dims, "noise": noise}
+    if free:
+        _make_free(draw, net)
+    return net
+
+
+def _make_free(draw, net):
+    """turn the fixed points into constrained/free ones (free network)"""
+    for p in net["points"]:
+        if p["xy"] == "fix":
+            p["xy"] = "constr"
+        if p["z"] == "fix":
+            p["z"] = "constr"
+
+
+def truth_jacobian(net):
+    """(A, cols) of the error-free model at the true coordinates; columns are the free/constrained
+    coordinates (physical E,N,H) and one orientation per direction set; rows scaled to unit sigma."""
+    P = nm.pmap(net)
+    cols = {}
+    for p in net["points"]:
+        if p["xy"] in ("adj", "constr"):
+            cols[(p["id"], "E")] = len(cols); cols[(p["id"], "N")] = len(cols)
+        if p["z"] in ("adj", "constr"):
+            cols[(p["id"], "H")] = len(cols)
+    rows = []
+    for ci, oi, comp, t in nm.flat_observations(net):
+        cl = net["clusters"][ci]
+        ob = cl["obs"][oi]
+        g = nm.obs_gradient(net, cl, ob, comp, P)
+        row = {}
+        ang = cl["k"] == "obs" and t in nm.ANGULAR
+        sd = ob.get("sd") or 5.0
+        unit = (200e4 / math.pi / 1000.0) if ang else 1.0
+        for (pid, c), v in g.items():
+            if pid == "orient":
+                key = ("orient", ci)
+                if key not in cols:
+                    cols[key] = len(cols)
+                row[cols[key]] = v
+            elif (pid, c) in cols:
+                row[cols[(pid, c)]] = v * unit / sd
+        rows.append(row)
+    A = np.zeros((len(rows), len(cols)))
+    for i, r in enumerate(rows):
+        for j, v in r.items():
+            A[i, j] = v
+    return A, cols
+
+
+def is_determined(net, tol=1e-6):
+    A, cols = truth_jacobian(net)
+    if A.shape[1] == 0:
+        return True
+    if A.shape[0] < A.shape[1]:
+        return False
+    s = np.linalg.svd(A / np.maximum(np.linalg.norm(A, axis=0), 1e-300), compute_uv=False)
+    return bool(s[-1] > tol * s[0])
